@@ -441,12 +441,240 @@ def boundary_cases(rng, tier):
             if (i + (fam == "e")) % 2 == 0:
                 yield Case(f"ecm_mul1024 {n} {fam} {rng.randrange(2, 1 << 20)} {rng.choice(large)}", k=False, tag=ft)
         for seed in (2, rng.randrange(2, 1 << 32)):
-            yield Case(f"suyama {n} {seed}", k=False)
+            yield Case(f"suyama {n} {seed}")
         yield Case(f"suyama_ops {n} {n - 1} {(1 << 64) % n} {(n >> 1) + 1}", o=False)
+
+
+# ------------------------------------------------------------------ curve constructors: reference and boundary seeds
+
+FINDING_FROM_POINT = "from-point-zero-coordinate-truncated-factor"
+
+
+def _inv(x, n):
+    try:
+        return pow(x, -1, n)
+    except ValueError:
+        return None
+
+
+def su_consts(n):
+    t = pow(3, -1, n)
+    return (-361 * t) % n, 10582 * t ** 3 % n, (12 - t) % n, 24 % n
+
+
+def su_double(n, A, P):
+    x, y, z = P
+    w = (A * z * z + 3 * x * x) % n
+    s = 2 * y * z % n
+    r = y * s % n
+    b = 2 * x * r % n
+    h = (w * w - 2 * b) % n
+    return (h * s % n, (w * (b - h) - 2 * r * r) % n, s * s * s % n)
+
+
+def su_add_g(n, gx, gy, P):
+    x, y, z = P
+    u, v = (gy * z - y) % n, (gx * z - x) % n
+    r = v * v * x % n
+    aa = (u * u * z - v ** 3 - 2 * r) % n
+    return (v * aa % n, (u * (r - aa) - v ** 3 * y) % n, v ** 3 * z % n)
+
+
+def ref_element(n, seed):
+    """what Suyama11::element returns: ('ok', P) | ('err', f)   (stage tags for `klass`)"""
+    A, B, gx, gy = su_consts(n)
+    res = (gx, gy, 1 % n)
+    for bit in range(seed.bit_length() - 2, -1, -1):
+        r2 = su_double(n, A, res)
+        if r2[2] == 0:
+            d = math.gcd(n, res[2])
+            if d != 1 and d != n:
+                return ("err", d)
+            d = math.gcd(n, res[1])
+            if d != 1:
+                return ("err", d)
+        res = r2
+        if (seed >> bit) & 1:
+            res = su_add_g(n, gx, gy, res)
+    return ("ok", res)
+
+
+def ref_suyama_curve(n, seed):
+    """element -> params_point -> twisted_from_point: ('ok', d, G) | ('err', f, stage)"""
+    e = ref_element(n, seed)
+    if e[0] == "err":
+        return ("err", e[1], "element")
+    x, y, z = e[1]
+    u = (3 * x + z) % n
+    i2 = _inv(u * u % n, n)
+    if i2 is None:
+        return ("err", math.gcd(n, u), "params")
+    s = (72 * z * u * i2 - 1) % n
+    r = y * z * 432 * i2 % n
+    al, be = (s * s - 5) % n, 4 * s % n
+    xn, xd = 2 * r * s % n, (s - 1) * (s + 5) * (s * s + 5) % n
+    yn, yd = (al ** 3 - be ** 3) % n, (al ** 3 + be ** 3) % n
+    G = (xn * yd % n, yn * xd % n, xd * yd % n)
+    dd = G[0] ** 2 * G[1] ** 2 % n
+    i = _inv(dd, n)
+    if i is None:
+        return ("err", math.gcd(n, dd), "twisted")
+    return ("ok", G[2] ** 2 * (G[1] ** 2 - G[0] ** 2 - G[2] ** 2) * i % n, G)
+
+
+def ref_from_point(n, x, y):
+    """('ok', d, G) | ('err', f): f is the gcd truncated to 64 bits, as fraction_modn reports it"""
+    if _inv(1 % n, n) is None:
+        return ("err", math.gcd(n, 1 % n) % W)
+    i = _inv(x * y % n, n)
+    if i is None:
+        return ("err", math.gcd(n, x * y % n) % W)
+    return ("ok", (x * x + y * y - 1) * i * i % n, (x % n, y % n, 1 % n))
+
+
+def ref_seeds(n, curves):
+    m0, seed, out = 2 * curves + 1, n % W, []
+    wide = curves >= 100 or n.bit_length() >= 32
+    for _ in range(curves):
+        seed = seed * m0 % W
+        out.append(max(2, seed % (1 << 32) if wide else seed % (1 << 16)))
+    return out
+
+
+def ref_ecm_select(n, curves):
+    """outcome of ecm::ecm as far as the curve construction decides it: 'p q' | 'none' | None (a curve is run)"""
+    if n % 3 == 0:
+        return "panic"
+    for seed in ref_seeds(n, curves):
+        c = ref_suyama_curve(n, seed)
+        if c[0] == "err" and c[1] == n:
+            s = seed % (1 << 24)
+            c = ref_from_point(n, 3 * s + 5, 4 * s + 5)
+        if c[0] == "ok":
+            return None
+        if c[1] != n:
+            return f"{c[1]} {n // c[1]}"
+    return "none"
+
+
+def ref_ecm128_select(n, curves):
+    if n % 3 == 0:
+        return "panic"
+    for seed in range(1, curves + 1):
+        c = ref_suyama_curve(n, seed + 1)
+        if c[0] == "ok" or c[2] == "twisted":
+            return None
+        if c[1] < n:
+            return f"{c[1]} {n // c[1]}"
+    return "none"
+
+
+SMALL_P = [p for p in small_primes(700) if p > 3]
+
+
+def vanishing(seed_max=40):
+    """(p, seed, stage): small primes modulo which the construction from [seed]G meets a vanishing denominator"""
+    out = []
+    for p in SMALL_P:
+        for seed in list(range(2, seed_max)) + [255, 256, 65535, 65536, (1 << 32) - 1, 1 << 31]:
+            c = ref_suyama_curve(p, seed)
+            if c[0] == "err":
+                out.append((p, seed, c[2]))
+    return out
+
+
+def constructor_cases(rng, tier):
+    """K + O on the curve constructors; boundary seeds = a denominator vanishes modulo one prime factor (the gcd must be
+    reported, not a curve), modulo all of them (the code reports n: fallback curve), modulo none"""
+    q = tier == "quick"
+    judged = FINDING_FROM_POINT in listed_findings()
+    van = vanishing()
+    by_seed = {}
+    for p, seed, st in van:
+        by_seed.setdefault(seed, []).append(p)
+    rng.shuffle(van)
+    stages = {}
+    for p, seed, st in van:
+        if stages.get(st, 0) >= (25 if q else 200):
+            continue
+        stages[st] = stages.get(st, 0) + 1
+        for bits in (rng.choice([31, 40, 60]), rng.choice([64, 65, 100, 127]), rng.choice([129, 200, 449])):
+            n = p * gen.rand_prime(rng, bits)
+            if n % 3 == 0:
+                continue
+            yield Case(f"suyama {n} {seed}", tag="van")
+            yield Case(f"curve_build release {n} s {seed}", tag="van")
+        others = [r for r in by_seed[seed] if r != p]
+        if others:                                     # the same seed fails modulo both prime factors
+            n = p * rng.choice(others)
+            yield Case(f"suyama {n} {seed}", tag="van")
+            yield Case(f"curve_build release {n} s {seed}", tag="van")
+        yield Case(f"suyama {p * p} {seed}", tag="van")
+    # generic moduli, extreme seeds
+    for i in range(12 if q else 120):
+        n, fs = modulus(rng, 1 + i % 8, composite=i % 2 == 1)
+        if n % 3 == 0:
+            continue
+        for seed in (2, 3, 4, (1 << 31), (1 << 32) - 1, rng.randrange(2, 1 << 32), rng.randrange(2, 1 << 16)):
+            yield Case(f"suyama {n} {seed}", tag=ftag(fs))
+            yield Case(f"curve_build release {n} s {seed}", tag=ftag(fs))
+            yield Case(f"curve_build release {n} e {seed}", tag=ftag(fs))
+        x, y = rng.randrange(1, 1 << 31), rng.randrange(1, 1 << 31)
+        yield Case(f"from_point release {n} {x} {y}")
+        yield Case(f"from_point release {n} {(1 << 31) - 1} {(1 << 31) - 1}")
+        # panic sites: the 2^31 assertion, u64 underflow of x*x + y*y - 1 (checked profile only)
+        yield Case(f"from_point release {n} {1 << 31} 1", o=False, profiles=["release"])
+        yield Case(f"from_point chk {n} 1 {1 << 31}", o=False, profiles=["chk"])
+        yield Case(f"from_point chk {n} 0 0", o=False, profiles=["chk"])
+        # a zero coordinate: x*y = 0 is not invertible, the reported "factor" is the low word of n (finding)
+        for x, y in ((0, 5), (7, 0), (0, 0)):
+            yield Case(f"from_point release {n} {x} {y}", o=judged or n < W, profiles=["release"], tag="zero-coordinate")
+        # a coordinate that shares a factor with n
+        p = fs[0]
+        if p < 1 << 31:
+            yield Case(f"from_point release {n} {p} 3")
+    for n in (5, 7, 11, 13, 25, 35, 49, 55, 77, 91, 121, 125, 143, 1001, 10007, 311 * 3259, 3011 * 3259, 311 * 311, 311 * 3011):
+        for seed in (2, 3, 5, 7, 10, 14, 15, 31):
+            yield Case(f"suyama {n} {seed}", tag="van")
+            yield Case(f"curve_build release {n} s {seed}", tag="van")
+            yield Case(f"curve_build release {n} e {seed}", tag="van")
+    # the real entry points ecm::ecm / ecm128::ecm, compared with the model on the inputs where the curve construction alone
+    # decides the outcome (an unexpected factor, or every seed given up); elsewhere the outcome depends on ecm_curve (O only)
+    cnt = {"k": 0, "o": 0}
+    tiny = [5, 7, 11, 13, 25, 35, 49, 55, 65, 77, 85, 91, 95, 115, 119, 121, 125, 133, 143, 169, 1001]
+    cand = [(n, c) for n in tiny for c in (1, 2, 3, 5)]
+    for _ in range(400 if q else 4000):
+        p = rng.choice([5, 7, 11, 13, 17, 19, 23, 29, 31, 37, 41, 311, 3011, 3259])
+        cand.append((p * gen.rand_prime(rng, rng.choice([8, 12, 16, 20, 24, 33, 40])), rng.choice([1, 1, 2, 3])))
+    for n, c in cand:
+        if n % 3 == 0 or n % 2 == 0:
+            continue
+        r = ref_ecm_select(n, c)
+        lim = 60 if q else 600
+        if r is not None and cnt["k"] < lim:
+            cnt["k"] += 1
+            yield Case(f"ecm_select release {n} {c}", tag="sel")
+        elif r is None and cnt["o"] < 10:
+            cnt["o"] += 1
+            yield Case(f"ecm_select release {n} {c}", k=False, tag="sel")
+        if n.bit_length() <= 128:
+            r = ref_ecm128_select(n, c)
+            if r is not None and cnt.get("k128", 0) < lim:
+                cnt["k128"] = cnt.get("k128", 0) + 1
+                yield Case(f"ecm128_select {n} {c}", tag="sel")
+    # ecm128::Curve::from: two-word twisted curves are taken over residue by residue, everything else panics
+    for bits, tw in ((65, True), (100, True), (127, True), (128, True), (128, False), (64, True), (40, True), (129, True), (192, True)):
+        n = gen.rand_prime(rng, bits)
+        d, P = curve_point(rng, n, -1 if tw else 1)
+        ok = tw and 64 < bits <= 128
+        yield Case(f"curve128_from {n} {'true' if tw else 'false'} {d} {fmt(*P)}", o=ok)
+        if ok:
+            yield Case(f"curve128_from {n} true {n - 1} {fmt(n - 1, (1 << 64) % n, ((1 << 64) - 1) % n)}")
 
 
 def cases(tier, rng, extended=False):
     yield from boundary_cases(_fork(rng, "C15-boundary"), tier)
+    yield from constructor_cases(_fork(rng, "C15-constructors"), tier)
     q = tier == "quick"
     mul = 10 if extended else 1
     # --- chain builders (K + O)
@@ -511,7 +739,7 @@ def cases(tier, rng, extended=False):
             for seed in (2, 5, rng.randrange(2, 1 << 16)):
                 yield Case(f"ecm128_mul {n} {seed} {rng.choice(ks64) or 1},{rng.choice(ks64 + smooth64) or 1}", k=False, tag=ft)
         for seed in (2, 3, 4, 7, rng.randrange(2, 1 << 32)):
-            yield Case(f"suyama {n} {seed}", k=False)
+            yield Case(f"suyama {n} {seed}")
         x, y, z = [gen.residue(rng, n) for _ in range(3)]
         yield Case(f"suyama_ops {n} {x} {y} {z}", o=False)
     # small moduli: curve construction hits its error paths (factor found while building the curve); points of
@@ -520,7 +748,7 @@ def cases(tier, rng, extended=False):
     for n in (5, 7, 11, 35, 55, 77, 91, 1001, 10007, 10583, 10589 * 10597, 3011 * 3259, 311 * 3259, 8596409 * 2621197441,
               65537 * 65539, 1000003 * 1000033):
         for seed in (2, 3, 5, 31):
-            yield Case(f"suyama {n} {seed}", k=False)
+            yield Case(f"suyama {n} {seed}")
             yield Case(f"ecm_mul {n} s {seed} 12", k=False, tag="weak")
             yield Case(f"ecm_mul {n} e {seed} 12", k=False, tag="weak")
 
@@ -694,6 +922,40 @@ def oracle(case, ans):
             if (R[3] * R[2] - R[0] * R[1]) % n:
                 return f"ecm128 {nm}: T Z != X Y"
         return None
+    if op in ("curve_build", "from_point"):
+        n = int(a[1])
+        if ans.startswith("err "):
+            f = int(ans.split()[1])
+            if op == "curve_build" and a[2] == "s" and f == 3 and n % 3 == 0:
+                return None
+            return None if f > 1 and n % f == 0 else f"reported factor {f} is not a divisor > 1 of n"
+        v = ints(ans)
+        aa, d, G = v[0], v[1], tuple(v[2:5])
+        if not on_curve(n, aa, d, G) or not nonzero(n, G):
+            return "generator is not on the curve the constructor returned"
+        if op == "curve_build" and a[2] == "s":
+            ref = ref_suyama_curve(n, int(a[3]))
+            if aa != -1 or ref[0] != "ok" or (ref[1], ref[2]) != (d, G):
+                return "Suyama-11 curve differs from the reference construction"
+            return None
+        if op == "curve_build":
+            sd = int(a[3]) % (1 << 24)
+            x, y = 3 * sd + 5, 4 * sd + 5
+        else:
+            x, y = int(a[2]), int(a[3])
+        if aa != 1 or G != (x % n, y % n, 1 % n) or (d * x * x * y * y - (x * x + y * y - 1)) % n:
+            return "curve through (x, y): d (x y)^2 != x^2 + y^2 - 1 or wrong generator"
+        if math.gcd(x * y, n) != 1:
+            return "a curve was returned although x y is not invertible"
+        return None
+    if op in ("ecm_select", "ecm128_select"):
+        n = int(a[-2])
+        if ans == "none":
+            return None
+        pq = ints(ans)
+        return None if len(pq) == 2 and pq[0] * pq[1] == n and 1 < pq[0] < n else "returned pair is not a proper factorisation of n"
+    if op == "curve128_from":
+        return None if ans == " ".join(a[3:6]) else "ecm128::Curve::from changed the generator's residues"
     if op == "suyama":
         n, seed = int(a[0]), int(a[1])
         if ans.startswith("err "):
@@ -732,7 +994,8 @@ def oracle(case, ans):
     return None
 
 
-K_OPS = {"chain64", "chain1024", "ed_ops", "ed128_ops", "suyama_ops", "ed_chainmul", "ed_chainmul1024", "ed128_chainmul"}
+K_OPS = {"chain64", "chain1024", "ed_ops", "ed128_ops", "suyama_ops", "ed_chainmul", "ed_chainmul1024", "ed128_chainmul", "suyama",
+         "curve_build", "from_point", "curve128_from"}
 
 
 def corpus_case(line):
@@ -750,6 +1013,14 @@ def klass(case, ans):
         neg = "neg" if any(x < 0 for x in c) else "pos"
         return f"{op}/len{'<=' if int(l) <= (8 if op == 'chain64' else 64) else '>'}{8 if op == 'chain64' else 64}/{neg}" + (
             "/len33" if op == "chain64" and l == "33" else "")
+    if op == "suyama" and " ; err" in ans:
+        return f"suyama/err@{('element', 'params', '?', 'twisted')[ans.count(' ; ') - 1]}" + ("=n" if ans.endswith(" " + case.args[0]) else "")
+    if op in ("curve_build", "from_point"):
+        n = int(case.args[1])
+        kind = "ok" if not ans.startswith("err") else "err=n" if int(ans.split()[1]) == n else "err"
+        return f"{op}/{case.args[2] if op == 'curve_build' else case.tag or 'xy'}/{kind}"
+    if op in ("ecm_select", "ecm128_select"):
+        return f"{op}/{'none' if ans == 'none' else 'factor'}/{'K' if case.k else 'O'}"
     if ans.startswith("err"):
         return f"{op}/err"
     if op in ("ecm_mul", "ecm_mul1024"):
@@ -760,6 +1031,8 @@ def klass(case, ans):
 
 
 def finding_key(case, ans, profile):
+    if case.op == "from_point" and case.tag == "zero-coordinate":
+        return FINDING_FROM_POINT
     if case.tag == "degenerate" or any(case.line == l for l, _ in DEGENERATE):
         return FINDING_DEGENERATE
     return None
